@@ -10,7 +10,7 @@ for f in $wt/seeded/variant?.diff; do
   p=$(echo "$out" | grep -o "[0-9]* passed" | awk '{s+=$1} END {print s}')
   fl=$(echo "$out" | grep -o "[0-9]* failed" | awk '{s+=$1} END {print s}')
   git -C $wt checkout -q -- .
-  if [ "$p" = "83" ] && [ "$fl" = "0" ]; then cp $f seeded/refactors/$r-$v.diff; echo "$r-$v ok ($p passed)"; else echo "$r-$v REJECTED passed=$p failed=$fl"; fi
+  if [ "${p:-0}" -ge 83 ] && [ "$fl" = "0" ]; then cp $f seeded/refactors/$r-$v.diff; echo "$r-$v ok ($p passed)"; else echo "$r-$v REJECTED passed=$p failed=$fl"; fi
 done
 cp $wt/seeded/NOTES.md seeded/refactors/$r-NOTES.md 2>/dev/null
 git -C /repo worktree remove --force $wt
